@@ -9,7 +9,7 @@ ls -d seeded/*/ | while read d; do
   extra=""; [ "$n" = "C12a" ] && extra="C11"; [ "$n" = "C04a" ] && extra="C36"; [ "$n" = "C40a" ] && extra="C10"
   echo "$n $p $extra"
 done > .cache/seedall/list.txt
-cat .cache/seedall/list.txt | xargs -P $par -L 1 bash -c 'n=$0; shift 0; ids="$1 $2"; SEED_LINES=40 scripts/seedrun.sh seeded/$n/patch.diff $ids > .cache/seedall/$n.log 2>&1; echo "$n done"'
+cat .cache/seedall/list.txt | xargs -P $par --process-slot-var=SLOT -L 1 bash -c 'n=$0; ids="$1 $2"; [ -s .cache/seedall/$n.log ] && grep -q "^== " .cache/seedall/$n.log && exit 0; SEEDWT=/tmp/seedwt-slot$SLOT SEED_LINES=40 scripts/seedrun.sh seeded/$n/patch.diff $ids > .cache/seedall/$n.log 2>&1; echo "$n done"'
 : > seeded/RESULTS.tsv
 for f in .cache/seedall/*.log; do n=$(basename $f .log); grep -E "^== " $f | while read _ id ex; do k=$(grep -A1 "VIOLATION property=$id " $f | grep -o "key=[^ ]*" | sort -u | head -3 | tr '\n' ' '); echo -e "$n\t$id\t$ex\t$k" >> seeded/RESULTS.tsv; done; grep -q "PATCH DOES NOT APPLY" $f && echo -e "$n\t-\tPATCH-DOES-NOT-APPLY\t" >> seeded/RESULTS.tsv; done
 echo ALLDONE >> seeded/RESULTS.tsv
